@@ -130,9 +130,16 @@ func extractHasVals(h *gripql.GraphStatement_Has) []string {
 				vals = []string{l}
 			}
 		case gripql.Condition_WITHIN:
-			v := val.([]interface{})
-			for _, x := range v {
-				vals = append(vals, x.(string))
+			// only a list of strings can be turned into an id/label lookup;
+			// anything else is left for the has() step to evaluate
+			if v, ok := val.([]interface{}); ok {
+				for _, x := range v {
+					s, ok := x.(string)
+					if !ok {
+						return []string{}
+					}
+					vals = append(vals, s)
+				}
 			}
 		default:
 			// do nothing
